@@ -591,6 +591,12 @@ theorem absM_idle (P : Progs) (len : Nat) (t : Thread) (h : t.stack = []) : absM
   rw [absM_settled P len t hs]
   simp [pointM, h, topOp]
 
+theorem abs_iinit (P : Progs) (T : Tables P) (n : Nat) : abs P (iinit n) = init n := by
+  have hm : absM P (iinit n).sh.len (iinit n).ctl = .idle := absM_idle _ _ _ rfl
+  have hw : (iinit n).ws.map (absW P (iinit n).sh.len) = List.replicate n (.wait 1) := by
+    simp only [iinit, List.map_replicate]; rw [T.initW]
+  rw [abs_eq, hm, hw]; rfl
+
 theorem sim_init (P : Progs) (T : Tables P) (n : Nat) : Sim P n (iinit n) where
   cst := by simp [iinit, stacksOf]
   wst := by
@@ -602,12 +608,7 @@ theorem sim_init (P : Progs) (T : Tables P) (n : Nat) : Sim P n (iinit n) where
     intro h
     rw [absM_idle P _ _ rfl] at h
     simp [phaseA] at h
-  reach := by
-    refine ⟨[], ?_⟩
-    have hm : absM P (iinit n).sh.len (iinit n).ctl = .idle := absM_idle _ _ _ rfl
-    have hw : (iinit n).ws.map (absW P (iinit n).sh.len) = List.replicate n (.wait 1) := by
-      simp only [iinit, List.map_replicate]; rw [T.initW]
-    rw [abs_eq, hm, hw]; rfl
+  reach := ⟨[], abs_iinit P T n⟩
 
 /-- a worker step: stutter or `stepWorker` -/
 theorem abs_worker (P : Progs) (T : Tables P) (s : IState) (k : Nat) (hw : ∀ t ∈ s.ws, t.stack ∈ stacksOf P .workerMain) :
@@ -750,5 +751,46 @@ theorem sim_run (P : Progs) (T : Tables P) (n : Nat) (es : List Ev) (s : IState)
 /-- every state of the interpretation of the generated programs is, through `abs`, a reachable state of the hand-written system -/
 theorem sim_reach (m : Mode) (n : Nat) (es : List Ev) : Sim (progs m) n (irun (progs m) (iinit n) es) :=
   sim_run _ (tables m) n es _ (sim_init _ (tables m) n)
+
+/-! ### reading program points of the interpreter state -/
+
+/-- thread `k` of the interpreter state (0 = controller) -/
+def IState.thread (s : IState) : Nat → Option Thread
+  | 0 => some s.ctl
+  | k + 1 => s.ws[k]?
+
+/-- thread `k`'s next micro-op is `worker_fun((*common_data)[index])` with `index = i` -/
+def atCall (P : Progs) (s : IState) (k i : Nat) : Prop :=
+  (s.thread k).any (fun t => decide (topOp P t.stack = some .callFun) && decide (t.index = i)) = true
+
+instance (P : Progs) (s : IState) (k i : Nat) : Decidable (atCall P s k i) := by
+  unfold atCall; infer_instance
+
+theorem callAt_abs (P : Progs) (s : IState) (k i : Nat) (h : atCall P s k i) : callAt (abs P s) k = some i := by
+  unfold atCall at h
+  cases ht : s.thread k with
+  | none => simp [ht] at h
+  | some t =>
+  simp only [ht, Option.any_some, Bool.and_eq_true, decide_eq_true_eq] at h
+  obtain ⟨htop, hi⟩ := h
+  have hs := settled_of_top P t.stack _ htop rfl
+  cases k with
+  | zero =>
+    simp only [IState.thread, Option.some.injEq] at ht
+    subst ht
+    show callIdxM (absM P s.sh.len s.ctl) = some i
+    rw [absM_settled P _ _ hs]
+    simp [pointM, htop, callIdxM, hi]
+  | succ k =>
+    simp only [IState.thread] at ht
+    show ((s.ws.map (absW P s.sh.len))[k]?).bind callIdxW = some i
+    simp only [List.getElem?_map, ht, Option.map_some, Option.bind_some]
+    rw [absW_settled P _ _ hs]
+    simp [pointW, htop, callIdxW, hi]
+
+/-- the controller's next micro-op is the (re-)read of `thread_counter` in master_wait -/
+theorem absM_waitDone (P : Progs) (len : Nat) (t : Thread) (h : topOp P t.stack = some .waitTCgeN) : absM P len t = .waitDone := by
+  rw [absM_settled P _ _ (settled_of_top P t.stack _ h rfl)]
+  simp [pointM, h]
 
 end SgVerif.C49
